@@ -144,7 +144,7 @@ func ConnectCluster(ctx context.Context, config ClusterConfig) (*Cluster, error)
 		controlConn:      nil,
 		hosts:            nil,
 		currentHostIndex: 0,
-		events:           make(chan *frame.Frame),
+		events:           make(chan *frame.Frame, eventBufferSize),
 		addListener:      make(chan ClusterListener),
 		listeners:        make([]ClusterListener, 0),
 	}
@@ -183,6 +183,11 @@ func (c *Cluster) Listen(listener ClusterListener) error {
 		return c.ctx.Err()
 	}
 }
+
+// eventBufferSize is the number of backend events that can wait for stayConnected. The control connection's
+// reader delivers events while stayConnected may itself be waiting on that reader (for the answers to its
+// topology queries in connect and refreshHosts), so delivery must not block.
+const eventBufferSize = 1024
 
 func (c *Cluster) OnEvent(frame *frame.Frame) {
 	c.events <- frame
